@@ -365,6 +365,35 @@ pub fn run(cfg: &Cfg, rep: &mut Rep) {
             }
         }
     }
+    // inputs on the calendar days that end with a leap second, the day after and the day before, at several day fractions:
+    // a Julian date counts 86 400 s to the day in every scale (the 61st second has no Julian date of its own)
+    for &(ts, _) in w.leap.iter() {
+        if cfg.fuzz {
+            break;
+        }
+        for dd in [-1i64, 0, 1] {
+            for fr in [0.0f64, 0.25, 0.5, 0.75, 0.999_652_777, 0.1] {
+                i += 1;
+                if i % n != sh {
+                    continue;
+                }
+                rep.class("build/on-a-leap-second-day");
+                let mjd = 15_020.0 + (ts / 86_400 + dd - 1) as f64 + fr;
+                check_build(rep, 0, mjd);
+                check_build(rep, 1, mjd);
+                check_build(rep, 2, mjd + 2_400_000.5);
+                check_build(rep, 3, mjd + 2_400_000.5);
+                let unix = (mjd - 40_587.0) * 86_400.0;
+                check_build(rep, 4, unix);
+                check_build(rep, 5, unix * 1000.0);
+                check_build(rep, 6, unix);
+                for s2 in [TimeScale::TAI, TimeScale::UTC, TimeScale::TT, TimeScale::GPST, TimeScale::BDT] {
+                    check_build_in_scale(rep, true, mjd + 2_400_000.5, s2);
+                    check_build_in_scale(rep, false, mjd, s2);
+                }
+            }
+        }
+    }
     for x in SPECIAL_INPUTS {
         i += 1;
         if i % n != sh || cfg.fuzz {
